@@ -239,7 +239,10 @@ THIRD_PARTY = [
     ("WS_MAX_MESSAGE_SIZE", "tungstenite", "src/protocol/mod.rs", r"max_message_size:\s*Some\(([^)]+)\)"),
     ("SNOW_MAXMSGLEN", "snow", "src/constants.rs", r"const\s+MAXMSGLEN\s*:\s*usize\s*=\s*([^;]+);"),
     ("YAMUX_DEFAULT_CREDIT", "yamux", "src/lib.rs", r"const\s+DEFAULT_CREDIT\s*:\s*u32\s*=\s*([^;]+?)\s+as\s+u32;"),
+    ("PROST_RECURSION_LIMIT", "prost", "src/lib.rs", r"const\s+RECURSION_LIMIT\s*:\s*u32\s*=\s*([^;]+);"),
 ]
+# the multiaddr protocol codes (`const NAME: u32 = code;` of multiaddr/src/protocol.rs)
+MADDR = ("multiaddr", "src/protocol.rs", r"^const\s+[A-Z0-9_]+\s*:\s*u32\s*=\s*(\d+)\s*;")
 
 
 def locked_versions(repo, crate):
@@ -276,6 +279,20 @@ def third_party(repo):
     return vals, missing
 
 
+def maddr_codes(repo):
+    import glob
+    crate, rel, rx = MADDR
+    for ver in sorted(locked_versions(repo, crate), reverse=True):
+        for d in glob.glob(os.path.expanduser("~/.cargo/registry/src/*/%s-%s" % (crate, ver))):
+            try:
+                codes = [int(x) for x in re.findall(rx, open(os.path.join(d, rel)).read(), re.M)]
+            except OSError:
+                codes = []
+            if codes:
+                return sorted(codes)
+    return []
+
+
 def coq_str(x):
     return '"' + x.replace('"', '""') + '"'
 
@@ -303,6 +320,11 @@ def generate(repo):
     tp, tp_missing = third_party(repo)
     for name, _, _, _ in THIRD_PARTY:
         out.append("Definition %s : N := %d." % (name, tp.get(name, 0)))
+    codes = maddr_codes(repo)
+    if not codes:
+        tp_missing.append(("C19_MADDR_CODES", "multiaddr/src/protocol.rs", "protocol codes not found in the vendored source"))
+    out.append("(* protocol codes of the multiaddr crate *)")
+    out.append("Definition maddr_codes : list N := [" + "; ".join(str(c) for c in codes) + "].")
     out.append("")
     text = "\n".join(out)
     os.makedirs(os.path.dirname(OUT), exist_ok=True)
